@@ -540,7 +540,7 @@ def apply(pinned_text, current_text, edits, strip_attrs=True, cfg_features=None)
                 raise ValueError('rep/drop need a range anchor')
             s, t = tr.range_unchanged(r[1], r[2])
             add(s, t, e.kind, e.text, {'tag': e.tag, 'cid': e.cid, 'anchor': repr(e.anchor), 'note': e.note})
-    ops.sort(key=lambda o: (o[0], 0 if o[0] == o[1] and False else 0, o[2]))
+    ops.sort(key=lambda o: (o[0], 0 if o[0] == o[1] else 1, o[2]))  # at one position: insertions first, then the range edit
     # non-overlap check: a range op may not contain another op
     last_end = -1
     for (s, e2, _, kind, _, _) in ops:
